@@ -81,7 +81,14 @@ func (c *constExpr) Exit(node *Node) {
 			}
 
 			out := fn.Call(in)
-			constNode := &ConstantNode{Value: out[0].Interface()}
+			value := out[0].Interface()
+			if value == nil {
+				// A nil result has no type to make a constant of (the
+				// compiler would fail on it): it is the nil literal.
+				patch(&NilNode{})
+				return
+			}
+			constNode := &ConstantNode{Value: value}
 			patch(constNode)
 		}
 	}
